@@ -17,10 +17,13 @@ BAG = {
     "hist": '<<"join","sub","unsub","pub","pub","pub","pub","hist","hist","hist","adv","leave">>',
     "disc": '<<"join","join","sub","sub","sub","pub","pub","pub","reg","reg","call","call","msess","leave">>',
     "stall": '<<"join","sub","pub","pub","reg","reg","call","call","call","yield","yield","yield","stall","stall","resume","adv","adv","ckill","cancel">>',
+    "authzrpc": '<<"join","join","reg","reg","call","call","call","inverr","inverr","inverr","yield","cancel","leave">>',
+    "stallkill": '<<"join","reg","reg","sub","sub","call","call","stall","stall","pub","pub","pub","ckill","ckill","adv","resume","yield">>',
     "killx": '<<"join","join","sub","wsub","tst","tst","kill","kill","kill","leave","msess","pub">>',
     "stallburst": '<<"join","join","sub","sub","sub","stall","bpub","bpub","bpub","resume","pub","leave">>',
     "burst": '<<"join","join","sub","sub","sub","reg","pub","bpub","bpub","bpub","leave","bmix">>',
     "burstrpc": '<<"join","join","reg","reg","sub","call","yield","bmix">>',
+    "burstslow": '<<"join","join","reg","sub","pub","call","yield","bslow">>',
     "hs": '<<"hello","hello","hello","auth","auth","auth","adv","msess","msess","wsub","pub","intrude","hsdrop","leave">>',
     "churn": '<<"join","join","sub","pub","reg","call","call","cancel","yield","leave","leave","leave","adv">>',
 }
@@ -75,13 +78,16 @@ PROPS = {
                 classes=["metaapi", "rpcreply", "pubsub"]),
     "C07": dict(family="core",
                 conc=dict(inv=["NoPanic", "Bounded"], props=["BrokerNeverWedged", "CloseReturns"]),
-                gen=[dict(bag="stall", depth=24, quick=220, thorough=2500, mode="stall"),
-                     dict(bag="stallburst", depth=16, quick=120, thorough=1500, mode="stall")],
+                gen=[dict(bag="stall", depth=24, quick=200, thorough=2500, mode="stall"),
+                     dict(bag="stallburst", depth=16, quick=100, thorough=1500, mode="stall"),
+                     dict(bag="stallkill", depth=18, quick=160, thorough=2500, mode="stall"),
+                     dict(bag="burstrpc", depth=10, quick=120, thorough=1500)],
                 classes=["sess", "pubsub", "meta", "rpcreply", "rpcroute", "rpcintr", "snap"]),
     "C08": dict(family="core",
                 conc=dict(inv=["Ordered"], devs={"DevAsyncPublish": "Ordered"}),
-                gen=[dict(bag="burst", depth=14, quick=300, thorough=3000),
-                     dict(bag="burstrpc", depth=12, quick=200, thorough=2000)],
+                gen=[dict(bag="burst", depth=14, quick=250, thorough=3000),
+                     dict(bag="burstrpc", depth=12, quick=160, thorough=2000),
+                     dict(bag="burstslow", depth=8, quick=40, thorough=400)],
                 classes=["pubsub", "rpcreply", "rpcroute"]),
     "C06": dict(family="core", crashpoints=True,
                 conc=dict(inv=["NoPanic", "QuietAfterClose", "ToldOrClosed"], props=["CloseReturns"],
@@ -95,7 +101,8 @@ PROPS = {
     "C10": dict(family="core",
                 mc=dict(kinds=["join", "sub", "pub", "reg", "call", "yield", "leave"], inv=["TablesOK"], props=["C10_Refusal"],
                         quick=dict(steps=4, nsess=3), thorough=dict(steps=6, nsess=3), mode="authz"),
-                gen=[dict(bag="mixed", depth=20, quick=200, thorough=3000, mode="authz"),
+                gen=[dict(bag="mixed", depth=20, quick=160, thorough=3000, mode="authz"),
+                     dict(bag="authzrpc", depth=16, quick=120, thorough=2000, mode="authz"),
                      dict(bag="meta", depth=16, quick=60, thorough=1000, mode="authz")],
                 classes=["sess", "pubsub", "meta", "metaapi", "rpcreply", "rpcroute", "rpcintr"]),
     "C11": dict(family="core", realms=True,
@@ -104,7 +111,8 @@ PROPS = {
                 gen=[dict(bag="mixed", depth=14, quick=160, thorough=2400),
                      dict(bag="kill", depth=14, quick=80, thorough=1200),
                      dict(bag="killx", depth=12, quick=160, thorough=2400),
-                     dict(bag="meta", depth=14, quick=80, thorough=1200)],
+                     dict(bag="meta", depth=14, quick=80, thorough=1200),
+                     dict(bag="stall", depth=16, quick=100, thorough=1500, mode="stall")],
                 classes=["sess", "pubsub", "meta", "metaapi", "rpcreply", "rpcroute", "rpcintr", "snap"]),
     "C12": dict(family="core",
                 mc=dict(kinds=["join", "sub", "pub", "reg", "call", "leave", "disc"],
@@ -308,7 +316,25 @@ def combine_realms(scns, seed, prop):
             r = rnd.choice([i for i, q in enumerate(queues) if q])
             steps.append(queues[r].pop(0))
         victim = rnd.randrange(k)
-        steps.insert(rnd.randrange(len(steps) // 2, len(steps) + 1), {"op": "rmrealm", "r": victim})
+        rm = {"op": "rmrealm", "r": victim}
+        pos = rnd.randrange(len(steps) // 2, len(steps) + 1)
+        # preferably while a callee's handler in the victim realm is held back by a caller that
+        # does not read (the removal then has to wait for it) ...
+        stalled = False
+        cands = []
+        for n, st in enumerate(steps):
+            if st.get("r") == victim and st["op"] == "stall":
+                stalled = True
+            if st.get("r") == victim and st["op"] == "yield" and stalled:
+                cands.append(n + 1)
+        if cands and rnd.random() < 0.8:
+            pos = rnd.choice(cands)
+        # ... and while somebody joins another realm, who must be served without delay
+        if rnd.random() < 0.6:
+            other = rnd.choice([r for r in range(k) if r != victim])
+            rm["with"] = {"op": "join", "r": other, "s": "r%dzj" % other,
+                          "join": {"authid": "u1", "color": "", "feats": [], "local": True, "q": 0}}
+        steps.insert(pos, rm)
         out.append({"id": "%s.realms%d.%04d" % (prop, seed, n), "realms": realms, "steps": steps, "epilogue": True})
     return out
 
@@ -335,7 +361,17 @@ def crashpoint_variants(scns, seed, prop):
         elif rnd.random() < 0.5:
             st["with"] = {"op": "join", "s": "z0", "join": {"authid": "u1", "color": "", "feats": [], "local": True, "q": 0}}
             st["gate"] = rnd.random() < 0.5
-        post = [st,
+        pre = []
+        if rnd.random() < 0.35:
+            # two unobserved sessions have a progressive call invocation with a router-side timeout
+            # in flight (several chunks: several timers), pending when the router is closed
+            allf = ["callee:progressive_call_invocations", "callee:call_canceling", "caller:progressive_call_invocations",
+                    "callee:progressive_call_results"]
+            tj = lambda: {"authid": "u9", "color": "tainted", "feats": allf, "local": True, "q": 0}
+            pre = [{"op": "join", "s": "zq", "join": tj()}, {"op": "join", "s": "zp", "join": tj()},
+                   {"op": "pci", "s": "zq", "args": ["zp"], "id": rnd.choice([2, 3, 6]), "ms": rnd.choice([500, 60000, 3600000]),
+                    "how": rnd.choice(["open", "done"])}]
+        post = pre + [st,
                 {"op": "join", "s": "z1", "join": {"authid": "u1", "color": "", "feats": [], "local": True, "q": 0}},
                 {"op": "advance", "ms": 7200000},
                 {"op": "join", "s": "z2", "join": {"authid": "alice", "color": "", "feats": [], "local": False, "q": 0}},
